@@ -674,6 +674,60 @@ func applyLayout(r *gitrepo.Repo, layout string) error {
 		if _, err := r.Git("pack-refs", "--all"); err != nil {
 			return err
 		}
+	case "bitmap":
+		// one pack with a reachability bitmap: git may then answer traversals from the bitmap, in pack order
+		if _, err := r.Git("repack", "-adbq"); err != nil {
+			return err
+		}
+	case "commitgraph":
+		if _, err := r.Git("repack", "-adq"); err != nil {
+			return err
+		}
+		if _, err := r.Git("commit-graph", "write", "--reachable"); err != nil {
+			return err
+		}
+	case "twopacks":
+		// what the first reference reaches in one pack, everything else in a second one, plus a multi-pack index
+		out, err := r.Git("for-each-ref", "--format=%(objectname)", "--count=1")
+		if err != nil {
+			return err
+		}
+		first := strings.TrimSpace(string(out))
+		if first != "" {
+			cmd := exec.Command("/bin/sh", "-c", "git rev-list --objects "+first+" | git pack-objects -q objects/pack/pack >/dev/null && git prune-packed -q")
+			cmd.Dir = r.GitDir
+			cmd.Env = append(gitrepo.GitEnv(filepath.Dir(r.GitDir)), "GIT_DIR="+r.GitDir)
+			if b, err := cmd.CombinedOutput(); err != nil {
+				return fmt.Errorf("twopacks: %v: %s", err, b)
+			}
+		}
+		if _, err := r.Git("repack", "-dq"); err != nil {
+			return err
+		}
+		if _, err := r.Git("multi-pack-index", "write"); err != nil {
+			return err
+		}
+	case "alternates":
+		// every object lives in an alternate object directory
+		alt := filepath.Join(filepath.Dir(r.GitDir), "alt-objects")
+		if r.GitDir == r.Dir {
+			alt = r.GitDir + ".alt-objects"
+		}
+		if err := os.MkdirAll(alt, 0o755); err != nil {
+			return err
+		}
+		ents, _ := os.ReadDir(filepath.Join(r.GitDir, "objects"))
+		for _, e := range ents {
+			if len(e.Name()) == 2 && e.IsDir() {
+				if err := os.Rename(filepath.Join(r.GitDir, "objects", e.Name()), filepath.Join(alt, e.Name())); err != nil {
+					return err
+				}
+			}
+		}
+		os.MkdirAll(filepath.Join(r.GitDir, "objects", "info"), 0o755)
+		if err := os.WriteFile(filepath.Join(r.GitDir, "objects", "info", "alternates"), []byte(alt+"\n"), 0o644); err != nil {
+			return err
+		}
 	}
 	return nil
 }
